@@ -36,8 +36,14 @@ thread_local! {
 fn fail(what: String) {
     ORACLE.with(|o| {
         let mut o = o.borrow_mut();
-        let class = what.split(|c: char| c == ' ' || c == '[').next().unwrap_or("").to_string();
-        if o.iter().filter(|x: &&String| x.split(|c: char| c == ' ' || c == '[').next().unwrap_or("") == class).count() < 2 {
+        // class = first word, plus the kernel name for kernel failures
+        let key = |x: &str| -> String {
+            let mut it = x.split(|c: char| c == ' ' || c == '[');
+            let c = it.next().unwrap_or("").to_string();
+            if c.starts_with("kernel") || c.starts_with("commute") { format!("{} {}", c, it.next().unwrap_or("")) } else { c }
+        };
+        let class = key(&what);
+        if o.len() < 40 && o.iter().filter(|x: &&String| key(x) == class).count() < 2 {
             o.push(what);
         }
     });
@@ -338,6 +344,43 @@ struct Knobs {
     kidpad: Option<usize>,
 }
 
+thread_local! {
+    /// layout class `ones`: every payload under a null slot is all ones (Boolean value bit 1,
+    /// fixed-width values = the largest positive pattern ff..7f)
+    static ONES: std::cell::Cell<bool> = std::cell::Cell::new(false);
+}
+fn ones() -> bool {
+    ONES.with(|c| c.get())
+}
+/// payload of `w` bytes under a null slot
+fn junk(rng: &mut Rng, w: usize, garbage: bool) -> Vec<u8> {
+    let maxpos = |w: usize| {
+        let mut v = vec![0xffu8; w];
+        if w > 0 {
+            v[w - 1] = 0x7f;
+        }
+        v
+    };
+    if ones() {
+        return maxpos(w);
+    }
+    if !garbage {
+        return vec![0u8; w];
+    }
+    match rng.below(5) {
+        0 => maxpos(w),
+        1 => {
+            let mut v = vec![0u8; w];
+            if w > 0 {
+                v[w - 1] = 0x80;
+            }
+            v
+        }
+        2 => vec![0u8; w],
+        _ => rng.bytes(w),
+    }
+}
+
 fn abuf(b: &[u8]) -> Buffer {
     Buffer::from_slice_ref(b)
 }
@@ -426,7 +469,7 @@ fn raw(rng: &mut Rng, t: &LT, col: &[V], k: &Knobs) -> ArrayData {
             for (i, v) in slots.iter().enumerate() {
                 let bit = match v {
                     V::B(x) => *x,
-                    _ => k.garbage && rng.bool(),
+                    _ => ones() || (k.garbage && rng.bool()),
                 };
                 if bit {
                     set_bit(&mut bits, i);
@@ -444,7 +487,7 @@ fn raw(rng: &mut Rng, t: &LT, col: &[V], k: &Knobs) -> ArrayData {
             for v in &slots {
                 match v {
                     V::X(x) => bytes.extend_from_slice(x),
-                    _ => bytes.extend_from_slice(&if k.garbage { rng.bytes(w) } else { vec![0u8; w] }),
+                    _ => bytes.extend_from_slice(&junk(rng, w, k.garbage)),
                 }
             }
             b = b.add_buffer(abuf(&bytes));
@@ -736,6 +779,14 @@ fn realisations(rng: &mut Rng, t: &LT, col: &[V]) -> Vec<Real> {
     push("plain".into(), raw(rng, t, col, &Knobs { pad: 0, garbage: false, force_validity: false, variant: false, prefix: None, kidpad: None }));
     // 1: garbage under nulls, all-valid bitmap when there is no null
     push("garbage".into(), raw(rng, t, col, &Knobs { pad: 0, garbage: true, force_validity: true, variant: false, prefix: None, kidpad: None }));
+    // 1b: all-ones payload under every null slot (Boolean value bit 1, max positive numbers)
+    ONES.with(|c| c.set(true));
+    let d1 = std::panic::catch_unwind(std::panic::AssertUnwindSafe(|| raw(rng, t, col, &Knobs { pad: 0, garbage: true, force_validity: false, variant: false, prefix: None, kidpad: None })));
+    ONES.with(|c| c.set(false));
+    match d1 {
+        Ok(d) => push("ones".into(), d),
+        Err(e) => std::panic::resume_unwind(e),
+    }
     // 2: ArrayData offset at a bit offset
     let p = *rng.pick(&PADS);
     let fv = rng.bool();
@@ -1133,8 +1184,14 @@ fn whole(t: &LT, rng_seed: u64, n: usize) -> Vec<(String, Box<dyn Fn(&ArrayRef) 
     }
     if matches!(t, LT::Bool) {
         ks.push(("min_boolean".into(), Box::new(|a| Ok(Arc::new(BooleanArray::from(vec![arrow_arith::aggregate::min_boolean(a.as_boolean())])) as ArrayRef))));
+        ks.push(("max_boolean".into(), Box::new(|a| Ok(Arc::new(BooleanArray::from(vec![arrow_arith::aggregate::max_boolean(a.as_boolean())])) as ArrayRef))));
+        ks.push(("bool_and".into(), Box::new(|a| Ok(Arc::new(BooleanArray::from(vec![arrow_arith::aggregate::bool_and(a.as_boolean())])) as ArrayRef))));
+        ks.push(("bool_or".into(), Box::new(|a| Ok(Arc::new(BooleanArray::from(vec![arrow_arith::aggregate::bool_or(a.as_boolean())])) as ArrayRef))));
         ks.push(("not".into(), Box::new(|a| arrow_arith::boolean::not(a.as_boolean()).map(|x| Arc::new(x) as ArrayRef))));
+        ks.push(("true_count".into(), Box::new(|a| Ok(Arc::new(UInt64Array::from(vec![a.as_boolean().true_count() as u64, a.as_boolean().false_count() as u64])) as ArrayRef))));
     }
+    ks.push(("is_null".into(), Box::new(|a| arrow_arith::boolean::is_null(a.as_ref()).map(|x| Arc::new(x) as ArrayRef))));
+    ks.push(("is_not_null".into(), Box::new(|a| arrow_arith::boolean::is_not_null(a.as_ref()).map(|x| Arc::new(x) as ArrayRef))));
     ks
 }
 
@@ -1269,6 +1326,7 @@ fn run_col(ts: &str, n: usize, seed: u64) -> String {
         for r in &reals[1..] {
             let o = guard_out(|| k(&r.arr));
             nk += 1;
+            tag(&format!("kc:{}:{}", name.split(':').next().unwrap(), class_of(&r.name)));
             if o != o0 {
                 fail(format!("kernel {}[{}]={} but [{}]={}", name, r.name, o, reals[0].name, o0));
             }
@@ -1285,29 +1343,83 @@ fn run_col(ts: &str, n: usize, seed: u64) -> String {
             }
         }
     }
-    // binary kernels between realisations of two columns
-    if is_numeric(&t) || is_stringy(&t) || matches!(t, LT::Bool | LT::Binary(_) | LT::Dict(..)) {
+    // binary kernels: BOTH operands vary independently over the realisations of two columns
+    {
+        use arrow_arith::{boolean as ab, numeric as an};
+        use arrow_ord::cmp;
+        type K2 = Box<dyn Fn(&ArrayRef, &ArrayRef) -> Result<ArrayRef, ArrowError>>;
         let col2 = { let mut c = col.clone(); c.rotate_left(if n > 0 { 1 } else { 0 }); c };
         let reals2 = realisations(&mut rng, &t, &col2);
-        let bin: Vec<(&str, Box<dyn Fn(&ArrayRef, &ArrayRef) -> Result<ArrayRef, ArrowError>>)> = vec![
-            ("eq", Box::new(|a, b| arrow_ord::cmp::eq(a, b).map(|x| Arc::new(x) as ArrayRef))),
-            ("lt", Box::new(|a, b| arrow_ord::cmp::lt(a, b).map(|x| Arc::new(x) as ArrayRef))),
-            ("distinct", Box::new(|a, b| arrow_ord::cmp::distinct(a, b).map(|x| Arc::new(x) as ArrayRef))),
-            ("add", Box::new(|a, b| arrow_arith::numeric::add(a, b))),
-            ("mul_wrapping", Box::new(|a, b| arrow_arith::numeric::mul_wrapping(a, b))),
-        ];
+        let b = |x: Result<BooleanArray, ArrowError>| x.map(|x| Arc::new(x) as ArrayRef);
+        let mut bin: Vec<(&str, K2)> = vec![];
+        let comparable = is_numeric(&t) || is_stringy(&t) || matches!(t, LT::Bool | LT::Binary(_) | LT::Dict(..) | LT::Prim(_) | LT::Fsb(_));
+        if comparable {
+            bin.push(("eq", Box::new(move |x, y| b(cmp::eq(x, y)))));
+            bin.push(("lt", Box::new(move |x, y| b(cmp::lt(x, y)))));
+            bin.push(("gt_eq", Box::new(move |x, y| b(cmp::gt_eq(x, y)))));
+            bin.push(("distinct", Box::new(move |x, y| b(cmp::distinct(x, y)))));
+            bin.push(("not_distinct", Box::new(move |x, y| b(cmp::not_distinct(x, y)))));
+            // comparison kernels feeding boolean kernels
+            bin.push(("or_kleene(lt,eq)", Box::new(move |x, y| b(ab::or_kleene(&cmp::lt(x, y)?, &cmp::eq(x, y)?)))));
+            bin.push(("and_kleene(not_lt,neq)", Box::new(move |x, y| b(ab::and_kleene(&ab::not(&cmp::lt(x, y)?)?, &cmp::neq(x, y)?)))));
+            bin.push(("or(gt,is_null)", Box::new(move |x, y| b(ab::or(&cmp::gt(x, y)?, &ab::is_null(x.as_ref())?)))));
+        }
+        if is_numeric(&t) || matches!(t, LT::Prim(DataType::Decimal128(..))) {
+            bin.push(("add", Box::new(|x, y| an::add(x, y))));
+            bin.push(("sub", Box::new(|x, y| an::sub(x, y))));
+            bin.push(("mul", Box::new(|x, y| an::mul(x, y))));
+            bin.push(("div", Box::new(|x, y| an::div(x, y))));
+            bin.push(("rem", Box::new(|x, y| an::rem(x, y))));
+            bin.push(("add_wrapping", Box::new(|x, y| an::add_wrapping(x, y))));
+            bin.push(("sub_wrapping", Box::new(|x, y| an::sub_wrapping(x, y))));
+            bin.push(("mul_wrapping", Box::new(|x, y| an::mul_wrapping(x, y))));
+        }
+        if matches!(t, LT::Bool) {
+            bin.push(("and", Box::new(move |x, y| b(ab::and(x.as_boolean(), y.as_boolean())))));
+            bin.push(("or", Box::new(move |x, y| b(ab::or(x.as_boolean(), y.as_boolean())))));
+            bin.push(("and_kleene", Box::new(move |x, y| b(ab::and_kleene(x.as_boolean(), y.as_boolean())))));
+            bin.push(("or_kleene", Box::new(move |x, y| b(ab::or_kleene(x.as_boolean(), y.as_boolean())))));
+            bin.push(("and_not", Box::new(move |x, y| b(ab::and_not(x.as_boolean(), y.as_boolean())))));
+            bin.push(("or_kleene(not,not)", Box::new(move |x, y| b(ab::or_kleene(&ab::not(x.as_boolean())?, &ab::not(y.as_boolean())?)))));
+            bin.push(("and_kleene(not,id)", Box::new(move |x, y| b(ab::and_kleene(&ab::not(x.as_boolean())?, y.as_boolean())))));
+        }
+        // a nullable Boolean predicate of the same length, with its own realisations (garbage / ones under nulls)
+        let pcol = gen_col(&mut rng, &LT::Bool, n);
+        let preals = realisations(&mut rng, &LT::Bool, &pcol);
+        bin.push(("filter_nullable_pred", Box::new(|x, p| arrow_select::filter::filter(x.as_ref(), p.as_boolean()))));
+        bin.push(("nullif", Box::new(|x, p| arrow_select::nullif::nullif(x.as_ref(), p.as_boolean()))));
+        let all_pairs = n <= 20;
         for (name, k) in &bin {
-            if (*name == "add" || *name == "mul_wrapping") && !is_numeric(&t) {
-                continue;
-            }
-            let o0 = guard_out(|| k(&reals[0].arr, &reals2[0].arr));
+            let pred = *name == "filter_nullable_pred" || *name == "nullif";
+            let rhs: &Vec<Real> = if pred { &preals } else { &reals2 };
+            let o0 = guard_out(|| k(&reals[0].arr, &rhs[0].arr));
             tag(&format!("k2:{}:{}", name, if o0 == "ERR" { "err" } else if o0 == "PANIC" { "panic" } else { "ok" }));
             for (i, a) in reals.iter().enumerate() {
-                let b = &reals2[(i * 2 + 1) % reals2.len()];
-                let o = guard_out(|| k(&a.arr, &b.arr));
+                for (j, bb) in rhs.iter().enumerate() {
+                    // every pair of realisations for short columns, a spread of >= 4 per left operand otherwise
+                    if !all_pairs && (i * 3 + j) % 2 != 0 {
+                        continue;
+                    }
+                    let o = guard_out(|| k(&a.arr, &bb.arr));
+                    nk += 1;
+                    tag(&format!("kc2:{}:{}|{}", name, class_of(&a.name), class_of(&bb.name)));
+                    if o != o0 {
+                        fail(format!("kernel2 {}[{},{}]={} but plain={}", name, a.name, bb.name, o, o0));
+                    }
+                }
+            }
+        }
+        // zip(mask, truthy, falsy): three operands
+        let o0 = guard_out(|| arrow_select::zip::zip(preals[0].arr.as_boolean(), &reals[0].arr, &reals2[0].arr));
+        tag(&format!("k2:zip:{}", if o0 == "ERR" { "err" } else if o0 == "PANIC" { "panic" } else { "ok" }));
+        for (i, a) in reals.iter().enumerate() {
+            for (j, p) in preals.iter().enumerate() {
+                let c = &reals2[(i + 2 * j + 1) % reals2.len()];
+                let o = guard_out(|| arrow_select::zip::zip(p.arr.as_boolean(), &a.arr, &c.arr));
                 nk += 1;
+                tag(&format!("kc2:zip:{}|{}", class_of(&p.name), class_of(&a.name)));
                 if o != o0 {
-                    fail(format!("kernel2 {}[{},{}]={} but plain={}", name, a.name, b.name, o, o0));
+                    fail(format!("kernel2 zip[{},{},{}]={} but plain={}", p.name, a.name, c.name, o, o0));
                 }
             }
         }
@@ -1344,6 +1456,12 @@ fn run_col(ts: &str, n: usize, seed: u64) -> String {
     }
     let _ = nk;
     "ok".into()
+}
+
+/// layout class of a realisation (its name without the numeric parameters)
+fn class_of(name: &str) -> String {
+    let base = name.split('_').next().unwrap_or(name);
+    base.trim_end_matches(|c: char| c.is_ascii_digit()).to_string()
 }
 
 fn guarded_opt<T, F: FnOnce() -> Option<T>>(f: F) -> Option<T> {
@@ -1422,7 +1540,8 @@ fn pick_n(rng: &mut Rng) -> usize {
 
 /// the lines of one generated column: the oracle case plus correspondence lines on its dumps
 fn gen_column_cases(rng: &mut Rng, out: &mut Vec<(String, String)>) {
-    let ts = if rng.chance(1, 3) { *rng.pick(&BITS) } else { *rng.pick(&GRID) };
+    // Boolean columns get extra weight (boolean kernels read value bits next to validity bits)
+    let ts = if rng.chance(1, 10) { "bool" } else if rng.chance(1, 3) { *rng.pick(&BITS) } else { *rng.pick(&GRID) };
     let t = parse_lt(ts);
     let n = if is_bits(ts) { *rng.pick(&[1usize, 2, 3, 4, 6, 9, 17]) } else { pick_n(rng) };
     let seed = rng.next_u64() >> 16;
